@@ -126,27 +126,51 @@ def run(F, ck, tier):
         ok = cap is not None and '4' in cap and 'luts' in cap and '2' in cap and 'num_sldc_polys' in cap and fixed == 4 and '(End)*' in sk and '(TransSre TransLdc)*' in sk
         ck.ob('R08.6', 'count:' + q, ok, 'declared capacity %s = 4 fixed + 1 per table + 2 per partial polynomial, as pushed' % cap if ok else
               '%s declares %s constraints but pushes %d fixed ones, [%s]' % (q, cap, fixed, sk), '%s:%d' % (fn.file, fn.line))
-    # R08.7
+    # R08.7  (name-independent: arrays are identified by the parameter they are sliced from; the wrap-around read by its shape)
     for q, fn in fns.items():
         D = defrender.Defs(fn)
-        init_idx = set()
-        prev_idx = set()
+        pnames = [b_['n'] for p_ in fn.params for b_ in __import__('rules.facts', fromlist=['pat_binds']).pat_binds(p_)]
+
+        def origin(base):
+            """name of the parameter a (sliced) array local comes from"""
+            n_ = base
+            for _ in range(6):
+                while isinstance(n_, dict) and n_.get('k') in ('Ref', 'Un', 'Index', 'Cast', 'MCall'):
+                    n_ = n_.get('e') or n_.get('r')
+                if not isinstance(n_, dict) or n_.get('k') != 'Local':
+                    return None
+                d = D.defs.get(n_['id'])
+                if d is None:
+                    return None
+                if d[0] == 'param':
+                    return n_['n']
+                if d[0] != 'let':
+                    return None
+                n_ = d[1]
+            return None
+        # locals and next-row arrays = the two lookup-z parameters (3rd and 4th parameter of the three evaluators, after builder if any)
+        zs_params = [p for p in pnames if 'lookup_zs' in p]
+        init_idx, prev_idx = set(), set()
         for n in walk(fn.body):
-            if n.get('k') == 'MCall' and n['n'] == 'push' and n['r'].get('k') == 'Local' and n['r']['n'] == 'constraints':
+            if n.get('k') == 'MCall' and n['n'] == 'push' and n['a']:
                 arg = n['a'][0]
                 if 'InitSre' in variants_in(D, arg):
                     for y in walk(arg):
-                        if y.get('k') == 'Index' and y['e'].get('k') == 'Local' and 'sldc' in y['e']['n']:
-                            init_idx.add(exprs.render(y['i']))
-            if n.get('k') == 'Let' and n['p'].get('k') == 'Bind' and n['p']['n'] == 'prev' and 'i' in n:
-                i = n['i']
-                if i.get('k') == 'If':
-                    for y in walk(i['th']):
-                        if y.get('k') == 'Index' and y['e'].get('k') == 'Local' and 'sldc' in y['e']['n']:
-                            prev_idx.add(exprs.render(y['i']))
-        ok = bool(init_idx) and bool(prev_idx) and prev_idx <= init_idx
-        ck.ob('R08.7', 'init-accumulator:' + q, ok, 'InitSre pins SLDC[%s], the value the first Sum transition reads from the zero row' % sorted(prev_idx) if ok else
-              '%s: the initial-value constraint is on SLDC[%s] but the first Sum transition (poly == 0) starts from SLDC[%s] of the next row: that value is unconstrained and the running sum can start anywhere' % (q, sorted(init_idx), sorted(prev_idx)), '%s:%d' % (fn.file, fn.line))
+                        if y.get('k') == 'Index' and origin(y['e']) in zs_params and y['e'].get('k') == 'Local' and D.defs.get(y['e']['id'], ('',))[0] == 'let':
+                            init_idx.add((origin(y['e']), exprs.render(y['i'])))
+            if n.get('k') == 'If' and 'el' in n:
+                c = n['c']
+                if c.get('k') == 'Bin' and c['op'] == 'Eq' and c['r'].get('k') == 'Lit' and str(c['r'].get('v')) == '0' and c['l'].get('k') == 'Local' and D.defs.get(c['l']['id'], ('',))[0] == 'for':
+                    for y in walk(n['th']):
+                        if y.get('k') == 'Index' and origin(y['e']) in zs_params:
+                            prev_idx.add((origin(y['e']), exprs.render(y['i'])))
+        # the wrap-around read is from the NEXT-row array; the init constraint is on the LOCAL-row array: compare index expressions
+        pi = {i for (_, i) in prev_idx}
+        ii = {i for (o, i) in init_idx}
+        ok = bool(pi) and bool(ii) and pi <= ii
+        ck.ob('R08.7', 'init-accumulator:' + q, ok, 'InitSre pins SLDC[%s], the value the first Sum transition reads from the zero row' % sorted(pi) if ok else
+              ('%s: the initial-value constraint is on SLDC[%s] but the first Sum transition (poly == 0) starts from SLDC[%s] of the next row: that value is unconstrained and the running sum can start anywhere' % (q, sorted(ii), sorted(pi))) if (pi and ii) else
+              '%s: could not locate the InitSre-filtered SLDC constraint (%s) or the wrap-around read under `<loop var> == 0` (%s)' % (q, sorted(ii), sorted(pi)), '%s:%d' % (fn.file, fn.line))
     # R08.5 wire consumption
     for q, fn in fns.items():
         fl = flow.Flow(F, fn)
@@ -159,21 +183,30 @@ def run(F, ck, tier):
     if sw is None:
         ck.ob('R08.9', 'anchor', False, 'ANCHOR-MISSING set_lookup_wires')
     else:
-        target = None
+        D = defrender.Defs(sw)
+
+        def is_n(x):
+            if x.get('k') == 'Call' and parse_path(callee(x) or '')[1] == 'num_slots':
+                return True
+            if x.get('k') == 'Local':
+                d = D.defs.get(x['id'])
+                return bool(d and d[0] == 'let' and isinstance(d[1], dict) and any(y.get('k') == 'Call' and parse_path(callee(y) or '')[1] == 'num_slots' for y in walk(d[1])) and d[1].get('k') in ('Call', 'Cast', 'Ref'))
+            return False
+        cands = []
         for n in walk(sw.body):
-            if n.get('k') == 'Let' and n['p'].get('k') == 'Bind' and n['p']['n'] == 'remaining_slots' and 'i' in n:
-                target = n['i']
-        if target is None:
-            ck.observe('R08.9 not applicable: no local named remaining_slots in set_lookup_wires')
-        else:
-            D = defrender.Defs(sw)
-            def is_n(x):
-                return x.get('k') == 'Local' and 'num_slots' in D.render(x) or (x.get('k') == 'Call' and parse_path(callee(x) or '')[1] == 'num_slots')
+            if n.get('k') == 'Let' and 'i' in n and n['p'].get('k') == 'Bind':
+                rems = [y for y in walk(n['i']) if y.get('k') == 'Bin' and y['op'] == 'Rem' and is_n(y['r'])]
+                subs = [y for y in walk(n['i']) if y.get('k') == 'Bin' and y['op'] == 'Sub' and is_n(y['l'])]
+                if rems and subs:
+                    cands.append(n)
+        if not cands:
+            ck.observe('R08.9 not applicable: no `num_slots - x % num_slots` padding computation found in set_lookup_wires')
+        for n in cands:
             try:
-                lo, hi = symint.ev(target, is_n, None)
+                lo, hi = symint.ev(n['i'], is_n, None)
                 ok = symint.le(hi, (1, -1)) and symint.le((0, 0), lo)
-                ck.ob('R08.9', 'padding.bound', ok, 'remaining_slots in [0, num_slots - 1]' if ok else
-                      'remaining_slots can reach %s*num_slots%+d: when the number of lookups is an exact multiple of the slot count a full row of padding is added and the multiplicity of the first entry is over-counted' % hi, target.get('s'))
+                ck.ob('R08.9', 'padding.bound', ok, 'padding slot count in [0, num_slots - 1]' if ok else
+                      'the padding slot count can reach %s*num_slots%+d: when the number of lookups is an exact multiple of the slot count a full row of padding is added and the multiplicity of the first entry is over-counted' % hi, n.get('s'))
             except symint.Unknown as e:
                 ck.observe('R08.9 not applicable: expression outside the symbolic interval evaluator (%s)' % e)
     ck.decided += ['evaluator skeleton agreement and argument shape', 'selector exhaustiveness and tiling', 'declared count', 'initial accumulator is the one read', 'wires consumed', 'padding bound']
